@@ -390,17 +390,44 @@ Proof. unfold own_proxy. destruct (proxy_serial v); [|discriminate]. apply nth_e
 Lemma wf_pair lab x : is_imm lab = true -> wf P (pair lab x) = wf P x.
 Proof. intros H. unfold pair. cbn [wf forallb]. rewrite H. simpl. now rewrite andb_true_r. Qed.
 
+Lemma pkg_of_value v : dumpable v = true -> pkg_of v = pair 1 v.
+Proof. intros H. destruct v; simpl in *; try rewrite H; try reflexivity; discriminate. Qed.
+Lemma pkg_of_tuple l : dumpable (PTuple l) = false -> pkg_of (PTuple l) = pair 2 (PTuple (map pkg_of l)).
+Proof. intros H. simpl in *. now rewrite H. Qed.
+Lemma pkg_of_own v k : own_proxy mk v = Some k -> pkg_of v = pair 3 (pv_of_idpack k).
+Proof. intros H. pose proof (own_proxy_shape _ _ _ H) as [D T]. destruct v; try discriminate. simpl. now rewrite H. Qed.
+Lemma pkg_of_reg v : dumpable v = false -> is_tuple v = false -> own_proxy mk v = None ->
+  pkg_of v = pair 4 (pv_of_idpack (idp v)).
+Proof. intros D T H. destruct v; try discriminate; simpl in *; try rewrite D; try reflexivity. now rewrite H. Qed.
+
+(* a structural predicate that ignores labels holds of the package when it holds of the value and of the id packs *)
+Lemma pkg_struct (Q : pyval -> bool) :
+  (forall lab x, In lab [1; 2; 3; 4] -> Q (pair lab x) = Q x) ->
+  (forall l, Q (PTuple l) = true -> Q (PTuple (map pkg_of l)) = forallb Q (map pkg_of l)) ->
+  (forall l, Q (PTuple l) = true -> forallb Q l = true) ->
+  (forall u, Q (pv_of_idpack (idp u)) = true) -> (forall k, In k mk -> Q (pv_of_idpack k) = true) ->
+  forall v, Q v = true -> Q (pkg_of v) = true.
+Proof.
+  intros Qp Qt Qi Qu Qm. induction v using pyval_ind'; intros W;
+    try (rewrite pkg_of_value by reflexivity; rewrite Qp by (solve [auto | simpl; auto 6]); exact W).
+  - destruct (dumpable (PTuple l)) eqn:D; [rewrite pkg_of_value, Qp by (solve [auto | simpl; auto 6]); exact W|].
+    rewrite pkg_of_tuple, Qp by (solve [auto | simpl; auto 6]). rewrite Qt by exact W. apply Qi in W. clear D.
+    induction H as [|y ys Hy Hys IH]; simpl in W |- *; auto. apply andb_true_iff in W as [A B]. now rewrite Hy, IH.
+  - destruct (dumpable (PFset l)) eqn:D; [rewrite pkg_of_value, Qp by (solve [auto | simpl; auto 6]); exact W|].
+    rewrite pkg_of_reg, Qp by (solve [auto | simpl; auto 6]). apply Qu.
+  - destruct (dumpable (PSlice v1 v2 v3)) eqn:D; [rewrite pkg_of_value, Qp by (solve [auto | simpl; auto 6]); exact W|].
+    rewrite pkg_of_reg, Qp by (solve [auto | simpl; auto 6]). apply Qu.
+  - destruct (own_proxy mk (POther k)) eqn:O.
+    + rewrite (pkg_of_own _ _ O), Qp by (solve [auto | simpl; auto 6]). apply Qm. eapply own_proxy_in; eauto.
+    + rewrite pkg_of_reg, Qp by (solve [auto | simpl; auto 6]). apply Qu.
+Qed.
+
 Theorem pkg_wf : forall v, wf P v = true -> wf P (pkg_of v) = true.
 Proof.
-  induction v using pyval_ind'; intros W; try (simpl pkg_of; rewrite wf_pair by reflexivity; exact W).
-  - simpl pkg_of. destruct (dumpable (PTuple l)); rewrite wf_pair by reflexivity; [exact W|].
-    cbn [wf] in *. apply andb_true_iff in W as [W1 W2]. unfold nlen in *. rewrite map_length, W1. simpl.
-    clear W1. induction H as [|y ys Hy Hys IH]; simpl in *; auto.
-    apply andb_true_iff in W2 as [A B]. now rewrite Hy, IH.
-  - simpl pkg_of. destruct (dumpable (PFset l)); rewrite wf_pair by reflexivity; [exact W|apply idp_wf].
-  - simpl pkg_of. destruct (dumpable (PSlice v1 v2 v3)); rewrite wf_pair by reflexivity; [exact W|apply idp_wf].
-  - simpl pkg_of. destruct (own_proxy mk (POther k)) eqn:O; rewrite wf_pair by reflexivity; [|apply idp_wf].
-    apply mk_wf. eapply own_proxy_in; eauto.
+  apply pkg_struct; auto.
+  - intros lab x H. apply wf_pair. simpl in H. intuition subst; reflexivity.
+  - intros l H. cbn [wf] in *. apply andb_true_iff in H as [H _]. unfold nlen in *. now rewrite map_length, H.
+  - intros l H. cbn [wf] in H. now apply andb_true_iff in H as [_ H].
 Qed.
 
 Hypothesis idp_ns : forall u, text_ok P (pv_of_idpack (idp u)) = true.
@@ -410,14 +437,7 @@ Proof. simpl. now rewrite andb_true_r. Qed.
 Theorem pkg_text_ok : forall v, text_ok P v = true -> text_ok P (pkg_of v) = true.
 Proof.
   unfold text_ok in *. destruct (sp P) eqn:S; [reflexivity|]. simpl in *.
-  induction v using pyval_ind'; intros W; try (simpl pkg_of; rewrite nosurr_pair; exact W).
-  - simpl pkg_of. destruct (dumpable (PTuple l)); rewrite nosurr_pair; [exact W|].
-    cbn [nosurr] in *. induction H as [|y ys Hy Hys IH]; simpl in *; auto.
-    apply andb_true_iff in W as [A B]. now rewrite Hy, IH.
-  - simpl pkg_of. destruct (dumpable (PFset l)); rewrite nosurr_pair; [exact W|apply idp_ns].
-  - simpl pkg_of. destruct (dumpable (PSlice v1 v2 v3)); rewrite nosurr_pair; [exact W|apply idp_ns].
-  - simpl pkg_of. destruct (own_proxy mk (POther k)) eqn:O; rewrite nosurr_pair; [|apply idp_ns].
-    apply mk_ns. eapply own_proxy_in; eauto.
+  apply pkg_struct; auto. intros; apply nosurr_pair.
 Qed.
 End Pkg.
 
